@@ -239,7 +239,7 @@ def run(ck):
         ck.need("kind:" + kd, 1, "generic kind of the quantifier never encoded")
     ck.need("roundtrips", 8000)
     ck.need("trace_roundtrips", 2000)
-    ck.need("function_kinds", 15)
+    ck.need("function_kinds", 18)
     ck.need("ret_yield_states", 9)
     return ck.finish(
         rule="types: inferable grammar expressions (complete to the node bound, sampled beyond), types inferred from value multisets "
